@@ -308,14 +308,23 @@ func genPurity(out string, root, helpers *pkgFiles) {
 	rep.Facts["mapRangeSensitiveSites"] = fmt.Sprintf("%v (of %d map ranges)", sens, t1+t2)
 
 	// Stack.Pop: every map goes back to the pool emptied
-	popOK := false
-	if fd := root.method("Stack", "Pop"); fd != nil {
-		puts, cleared := putsAreCleared(fd, "mapPool", clearsMap)
-		popOK = cleared && puts == countCalls(root, "mapPool.Put")
-	} else {
+	// every `mapPool.Put(m)` of the package — in Stack.Pop or in a helper it delegates to — comes after `m` was emptied in the same function
+	popOK := true
+	totalPuts := 0
+	for _, f := range allFuncs(root) {
+		puts, cleared := putsAreCleared(f.decl, "mapPool", clearsMap)
+		totalPuts += puts
+		if puts > 0 && !cleared {
+			popOK = false
+		}
+	}
+	if totalPuts == 0 || totalPuts != countCalls(root, "mapPool.Put") {
+		popOK = false
+	}
+	if root.method("Stack", "Pop") == nil {
 		fail("purity", fmt.Errorf("Stack.Pop not found"))
 	}
-	fmt.Fprintf(&sb, "/-- every `mapPool.Put(m)` (all of them are in Stack.Pop) comes after `m` has been emptied -/\ndef popClearsBeforePut : Bool := %s\n", b2l(popOK))
+	fmt.Fprintf(&sb, "/-- every `mapPool.Put(m)` of the package comes after `m` has been emptied -/\ndef popClearsBeforePut : Bool := %s\n", b2l(popOK))
 	rep.Facts["popClearsBeforePut"] = b2l(popOK)
 
 	// interpolate: the builder is reset before it goes back
@@ -414,6 +423,26 @@ func genPurity(out string, root, helpers *pkgFiles) {
 				}
 				if f == "slices.Clone" {
 					fresh++
+				}
+				// a same-package helper whose single statement returns a fresh copy of its (only) parameter
+				if id, isId := ce.Fun.(*ast.Ident); isId && len(ce.Args) == 1 {
+					if h := helpers.fn(id.Name); h != nil && h.Body != nil && len(h.Body.List) == 1 && h.Type.Params != nil && len(h.Type.Params.List) == 1 && len(h.Type.Params.List[0].Names) == 1 {
+						pn := h.Type.Params.List[0].Names[0].Name
+						if rs, isRet := h.Body.List[0].(*ast.ReturnStmt); isRet && len(rs.Results) == 1 {
+							if rc, isCall := rs.Results[0].(*ast.CallExpr); isCall {
+								rf := exprString(rc.Fun)
+								if rf == "append" && len(rc.Args) == 2 && rc.Ellipsis.IsValid() && exprString(rc.Args[1]) == pn {
+									first := types.ExprString(rc.Args[0])
+									if first == "[]html.Attribute(nil)" || first == "[]html.Attribute{}" || strings.HasPrefix(first, "make(") {
+										fresh++
+									}
+								}
+								if rf == "slices.Clone" && len(rc.Args) == 1 && exprString(rc.Args[0]) == pn {
+									fresh++
+								}
+							}
+						}
+					}
 				}
 			}
 			return true
